@@ -85,6 +85,19 @@ def make_case(rng: random.Random, *, funcs=None, chunked=None, dtypes=None, stre
         c = Case(func=func, dtype=dtype, vals=vals, labels=labels, expected=exp, sort=rng.choice(sorts), fill=fill,
                  min_count=mc, ddof=rng.choice([0, 0, 1]), engine=rng.choice(engines or ENGINES), stream=stream)
         c.expected_kind = rng.choice(["array", "array", "list", "index"])
+        if exp is not None and dtype != "bool" and rng.random() < 0.12 and all(l is not None for l in labels):
+            # requested labels that do not survive a cast to the dtype of the label array: a fractional label next to integer
+            # labels, a value beyond a narrow label dtype - they never occur, their slots hold the fill
+            c.label_dtype = rng.choice(["int8", "int32", "uint8"] if min(labels) >= 0 else ["int8", "int32"])
+            extra = rng.choice([[max(labels) + 0.5], [min(labels) - 0.5], [261], [-1] if c.label_dtype == "uint8" else [-131], [0.5, 261]])
+            c.expected = list(exp) + [x for x in extra if x not in exp]
+            if c.sort and rng.random() < 0.7:
+                c.expected = sorted(c.expected)
+            c.expected_kind = rng.choice(["array", "list", "index"])
+            if c.fill is None:
+                c.fill = rng.choice([NAN, 0, -7]) if func not in ARG else -7
+                if func in ("any", "all"):
+                    c.fill = rng.choice([0, 1])
         if exp is not None and dtype != "bool" and rng.random() < 0.15:
             # expected_groups as a pandas.RangeIndex: any start / step / direction (its members are labels, not positions)
             start, step, k = rng.choice([0, 0, 1, -2, 2, 4]), rng.choice([1, 1, 2, -1, -2, 3]), rng.randint(1, 5)
